@@ -17,7 +17,7 @@ grader_cases() draws {'kind', 'g', 'single', 'slots'}: 'slots' holds one Slot pe
 matching / near-miss student text; not JSON - only the drawn inputs go into a case spec).
 """
 import re
-from vlib import rivals
+from vlib import rivals, forms
 
 from hypothesis import strategies as st
 
@@ -73,7 +73,7 @@ def decode(o):
         if '$t' in o:
             return tuple(decode(x) for x in o['$t'])
         if '$g' in o:
-            return GRADERS[o['$g']](**{k: decode(v) for k, v in o['kw'].items()})
+            return forms.make(GRADERS[o['$g']], {k: decode(v) for k, v in o['kw'].items()}, o)
         if '$cmp' in o:
             k = o['$cmp']
             if k == 'equality':
@@ -126,7 +126,7 @@ def build(spec, debug=None):
     kw = {k: decode(v) for k, v in spec['kw'].items()}
     if debug is not None:
         kw['debug'] = bool(debug)
-    g = GRADERS[spec['$g']](**kw)
+    g = forms.make(GRADERS[spec['$g']], kw, spec)     # keyword or single-dictionary spelling (vlib/forms.py)
     rivals.after_build(g)       # a second grader of the same class, built and used before this one is (vlib/rivals.py)
     return g
 
